@@ -60,7 +60,7 @@ def run(res, tier, rng):
              ("localhost",), ("api", "localhost"), ("b", "api", "localhost")]
     seg_chains = [[], ["a"], ["a", "b"], ["a", "b", "c"], ["b"], ["a", "c"]]
     universe = []
-    for scheme, port in (("http", ""), ("https", ""), ("http", "8080")):
+    for scheme, port in (("http", ""), ("https", ""), ("http", "8080"), ("http", "80")):
         for h in hosts:
             for segs in seg_chains:
                 for trailing in ((False, True) if segs else (False, True)):
@@ -114,7 +114,7 @@ def run(res, tier, rng):
     res.evaluations += n1
     res.nontrivial = nontriv
     res.extra["universe"] = len(universe)
-    res.rule = ("universe: 3 scheme/port combinations x 17 host chains (depth <= 4, multi-label public suffixes, a private suffix, upper case, digit-leading labels, localhost and names under it) x 6 path chains (depth <= 3) x trailing slash x "
+    res.rule = ("universe: 4 scheme/port combinations (the scheme's own default port written out included: ':80' is a port, '' is none) x 17 host chains (depth <= 4, multi-label public suffixes, a private suffix, upper case, digit-leading labels, localhost and names under it) x 6 path chains (depth <= 3) x trailing slash x "
                 "optional query / fragment (%s); all ordered pairs (u, v), both directions (under => prefix, prefix => under), string-prefix of serialized LRUs; x suffix_aware; "
                 "model vs implementation on every url. Non-trivial = ordered pairs where v lies under u." % ("sampled in quick" if tier == "quick" else "complete"))
     res.sample(dict(u=universe[3].text, stems=stems[universe[3].text]))
